@@ -159,6 +159,14 @@ pub struct FileCase {
     /// (record index, minimum length): that record is repeated to this length
     #[serde(default)]
     pub stretch: Option<(u16, usize)>,
+    /// when > 1 (and k <= 4): the record list is repeated this many times under distinct names, so that a batch
+    /// holds hundreds of records (one batch = the whole file at the default memory limit)
+    #[serde(default)]
+    pub copies: usize,
+}
+
+fn seed_copies(recs: &[Rec]) -> u64 {
+    crate::util::fnv64(recs.iter().map(|r| r.id.as_str()).collect::<Vec<_>>().join("/").as_bytes()) >> 7
 }
 
 fn materialise(c: &FileCase) -> Vec<Rec> {
@@ -167,6 +175,16 @@ fn materialise(c: &FileCase) -> Vec<Rec> {
         if !recs.is_empty() {
             let idx = crate::util::idx16(i, recs.len());
             recs[idx].seq = Bytes(stretched(&recs[idx].seq, min_len));
+        }
+    }
+    if c.copies > 1 && c.k <= 4 {
+        let base = recs.clone();
+        for j in 1..c.copies {
+            for r in &base {
+                if r.seq.0.len() <= 2000 {
+                    recs.push(Rec { id: format!("{}_{}", r.id, j), desc: r.desc.clone(), seq: r.seq.clone() });
+                }
+            }
         }
     }
     recs
@@ -260,7 +278,9 @@ fn file_strategy(tier: Tier, cli: bool) -> BoxedStrategy<FileCase> {
                         if let Some((pick, seed)) = distinct {
                             gen::plant_distinct(&mut recs, k, pick, seed);
                         }
-                        FileCase { recs, k, norm, writer, delim: delim.clone(), threads, header, stretch }
+                        // a tenth of the cases (k <= 4): 30 - 80 copies of the list (hundreds to a thousand records in one batch)
+                        let copies = match distinct { None if seed_copies(&recs) % 10 == 3 => 30 + seed_copies(&recs) as usize / 10 % 51, _ => 1 };
+                        FileCase { recs, k, norm, writer, delim: delim.clone(), threads, header, stretch, copies }
                     })
                 })
         })
